@@ -38,15 +38,16 @@ func (p *Party) Chan() <-chan *protocol.Message {
 
 // Delivery is one (message, recipient) pair waiting in the network.
 type Delivery struct {
-	Seq    int
-	From   party.ID
-	To     party.ID
-	Round  int
-	Bcast  bool
-	Bytes  []byte            // wire encoding
-	Orig   *protocol.Message // the object the sender's handler emitted (nil for injected)
-	Tag    string            // free-form annotation (dup, stale, foreign, mutated...)
-	Target *Party            // explicit target (for twins sharing an ID); nil = lookup by To
+	Seq     int
+	From    party.ID
+	To      party.ID
+	Round   int
+	Bcast   bool
+	Bytes   []byte            // wire encoding
+	Orig    *protocol.Message // the object the sender's handler emitted (nil for injected)
+	Tag     string            // free-form annotation (dup, stale, foreign, mutated...)
+	Target  *Party            // explicit target (for twins sharing an ID); nil = lookup by To
+	Emitter *Party            // the party object that emitted the message (nil for injected)
 }
 
 // Event is one log record.
@@ -80,6 +81,8 @@ type Net struct {
 	AfterStep func(n *Net)
 	// Current is called with the party about to run (for party-keyed randomness).
 	Current func(id party.ID)
+	// CurrentParty, when set, is called instead of Current with the party object (twins share an id).
+	CurrentParty func(p *Party)
 	// NoSerialize delivers the emitted object itself (only for special experiments).
 	Steps    int
 	MaxSteps int
@@ -153,7 +156,7 @@ func (n *Net) enqueue(from *Party, m *protocol.Message) {
 			continue
 		}
 		n.seq++
-		n.Pending = append(n.Pending, &Delivery{Seq: n.seq, From: m.From, To: p.ID, Round: int(m.RoundNumber), Bcast: m.Broadcast, Bytes: b, Orig: m, Target: p})
+		n.Pending = append(n.Pending, &Delivery{Seq: n.seq, From: m.From, To: p.ID, Round: int(m.RoundNumber), Bcast: m.Broadcast, Bytes: b, Orig: m, Target: p, Emitter: from})
 	}
 }
 
@@ -217,7 +220,9 @@ func (n *Net) Deliver(d *Delivery) {
 		return
 	}
 	m := Decode(d.Bytes)
-	if n.Current != nil {
+	if n.CurrentParty != nil {
+		n.CurrentParty(p)
+	} else if n.Current != nil {
 		n.Current(p.ID)
 	}
 	can := p.H.CanAccept(m)
